@@ -735,6 +735,37 @@ def early_solver_validity(args):
     return out
 
 
+def symbol_names_probe(work):
+    """C16, free-text names in the SMT-LIB export: a task whose name is not an SMT-LIB simple symbol (leading digit, space, '#')
+    -> list of names whose export does not parse"""
+    import z3
+    import processscheduler as ps
+    bad = []
+    for name in ('2ndTask', 'Saw planks', 'Drill#2', 'plain_name'):
+        try:
+            with contextlib.redirect_stdout(io.StringIO()):
+                pb = ps.SchedulingProblem(name='SymbolProbe', horizon=6)
+                ps.FixedDurationTask(name=name, duration=2)
+                solver = ps.SchedulingSolver(problem=pb, max_time=10)
+                solver.solve()
+                fn = os.path.join(work, 'symprobe_%d.smt2' % os.getpid())
+                solver.export_to_smt2(fn)
+            try:
+                z3.parse_smt2_file(fn)
+                s2 = z3.Solver()
+                s2.from_file(fn)
+                if s2.check() != z3.sat:
+                    bad.append((name, 'not satisfiable'))
+            except z3.Z3Exception as e:
+                bad.append((name, str(e)[:120]))
+            finally:
+                if os.path.exists(fn):
+                    os.remove(fn)
+        except Exception as e:
+            bad.append((name, 'export failed: %s' % str(e)[:100]))
+    return bad
+
+
 def solution_slice(ctx, progs, keep=None):
     """the report of the returned solutions (tasks, resources, buffers, indicators, horizon) of `progs`, real library vs model
     (build_solution + clean_buffer_levels of Solution.v); keep: predicate on report lines (which part of the report matters)
@@ -923,6 +954,18 @@ def run(ctx, replay=None):
     for res in results:
         if res['error']:
             breaks.append((res['idx'], -1, res['error'][-600:]))
+    if cfg['extra'] == 'export' and replay is None:
+        pb_ = common.pmap(symbol_names_probe, [ctx.work])[0]
+        if isinstance(pb_, dict):
+            pb_ = [('probe', 'crashed: ' + str(pb_.get('error'))[:200])]
+        stats['symbol_probe_names_failing'] = len(pb_)
+        for name, why in pb_:
+            # z3's printer writes a symbol that starts with a digit unquoted (finding F46); any other name must come out right
+            kind = 'smt2_symbol_leading_digit' if name[:1].isdigit() else 'smt2_symbol_not_quoted'
+            if kind in open_kinds:
+                known_hits[kind] += 1
+            else:
+                clause_viol.append((0, -1, kind, 'task named %r: %s' % (name, why)))
     reported = 0
     for idx, k, kind, detail in clause_viol[:3]:
         path = common.write_replay(ctx, 'clause', {
